@@ -20,7 +20,7 @@ LEAN_TARGETS = ["RV.C18.Props", "RV.C18.Audit"]
 AUDIT = "RV/C18/Audit.lean"
 DRIVER = "drv_c18"
 CASES = {"quick": 1500, "thorough": 40000, "search": 20000}
-RULE = ("random histories (1-14 ops) of add / batch addN and += (duplicates inside a batch) / pattern-remove / commit / rollback through Graph, ConjunctiveGraph "
+RULE = ("random histories (1-14 ops) of add / batch addN and += (duplicates inside a batch) / parse of an N-Triples document into a graph / pattern-remove / commit / rollback through Graph, ConjunctiveGraph "
         "or Dataset over AuditableStore(Memory), one or two wrappers (disjoint subjects); non-trivial = at least one "
         "rollback or commit happens while the undo log is non-empty; distinct = distinct (cfg, init, ops)")
 ASSUMPTIONS = ["the wrapped Memory store behaves as a set of quads (C01/C02)",
@@ -81,7 +81,16 @@ def gen_case(rng, tier, i):
                 if rng.random() < 0.35:
                     qs.append(list(q))
             ops.append(["addn", w, qs])
-        elif r < 0.16 and cfg != "graph":
+        elif r < 0.13:
+            # a document parsed into one graph inside the transaction (Graph.parse / ConjunctiveGraph.parse):
+            # a history of adds made by the parser; blank-node-free so that the parsed terms are the vocabulary's
+            c_ = rng.choice(graphs)
+            ground = [x for x in ss if x != 2] or [1]
+            qs = []
+            for _k in range(rng.randint(1, 3)):
+                qs.append([rng.choice(ground), rng.choice(list(PRED)), rng.choice([20, 21, 22, 23, 24]), c_])
+            ops.append(["parse", w, qs])
+        elif r < 0.18 and cfg != "graph":
             q = quad(ss)
             extra = []
             for _k in range(rng.randint(0, 2)):
@@ -180,6 +189,18 @@ def run_impl(case):
             else:
                 top.addN([(t(s_), t(p_), t(o_), top.get_context(gn[c_])) for s_, p_, o_, c_ in qs])
             dirty[w] = True
+        elif kind == "parse":
+            qs = op[2]
+            doc = Graph()
+            for s_, p_, o_, _c in qs:
+                doc.add((t(s_), t(p_), t(o_)))
+            text = doc.serialize(format="nt")
+            c_ = qs[0][3]
+            if cfg == "graph":
+                top.parse(data=text, format="nt")
+            else:
+                top.get_context(gn[c_]).parse(data=text, format="nt")
+            dirty[w] = True
         elif kind == "remove":
             s, p, o, c = op[2:]
             if cfg == "graph":
@@ -225,6 +246,7 @@ def run_impl(case):
             "key": repr((cfg, case["two"], case["init"], case["ops"])),
             "stats": {"ops": len(case["ops"]), "cfg_" + cfg: 1, "two_wrappers": int(case["two"]),
                       **{"op_" + o[0]: 1 for o in case["ops"]},
+                      "parse_in_transaction": int(any(o[0] == "parse" for o in case["ops"])),
                       "addf_foreign_graph_object": int(any(o[0] == "addf" for o in case["ops"])),
                       "addn_with_duplicate": int(any(o[0] == "addn" and len({tuple(q) for q in o[2]}) < len(o[2]) for o in case["ops"]))}}
 
@@ -240,7 +262,7 @@ def model_lines(case):
     for op in case["ops"]:
         if op[0] in ("add", "remove"):
             lines.append(f"{op[0]} {op[1]} " + " ".join(_w(x) for x in op[2:]))
-        elif op[0] == "addn":
+        elif op[0] in ("addn", "parse"):
             for q in op[2]:
                 lines.append(f"add {op[1]} " + " ".join(_w(x) for x in q))
         elif op[0] == "addf":
@@ -258,7 +280,7 @@ def select_model_obs(case, out):
     i = 1 + len(case["init"])
     res = []
     for op in case["ops"]:
-        i += len(op[2]) if op[0] == "addn" else (len(op[3]) + 1) if op[0] == "addf" else 1
+        i += len(op[2]) if op[0] in ("addn", "parse") else (len(op[3]) + 1) if op[0] == "addf" else 1
         res.append(out[i])
         i += 1
     return res
@@ -275,9 +297,9 @@ def shrink(case):
             for j in range(len(op[3])):
                 yield {**case, "ops": ops[:i] + [["addf", op[1], op[2], op[3][:j] + op[3][j + 1:]]] + ops[i + 1:]}
     for i, op in enumerate(ops):
-        if op[0] == "addn" and len(op[2]) > 1:
+        if op[0] in ("addn", "parse") and len(op[2]) > 1:
             for j in range(len(op[2])):
-                yield {**case, "ops": ops[:i] + [["addn", op[1], op[2][:j] + op[2][j + 1:]]] + ops[i + 1:]}
+                yield {**case, "ops": ops[:i] + [[op[0], op[1], op[2][:j] + op[2][j + 1:]]] + ops[i + 1:]}
     if case["two"] and all(o[1] == 0 for o in ops):
         yield {**case, "two": False}
 
